@@ -533,7 +533,7 @@ def model_cases(ctx):
         p = kw.get('poly_order')
         kinds = ['x']
         if p is not None or name == 'iasls':
-            kinds += ['warm:5', 'warm:1', f'warmw:{p if p is not None else 2}']
+            kinds += ['warm:5', 'warm:1'] + ([f'warmw:{p if p is not None else 2}'] if (ctx.tier == 'thorough' or name in ('poly', 'modpoly')) else [])
         if 'num_knots' in kw:
             kinds += ['spl:8', 'spl:6']
         if name == 'poly':
@@ -630,7 +630,8 @@ Open Scope Z_scope.
 CELL2 = {'x': 0, 'z': 1, 'shape': 2, 'size': 3, 'validx': 4, 'validz': 5}
 M2, N2 = 12, 10
 METHODS_2D_MODEL = {'rolling_ball': {'half_window': 2}, 'asls': {'lam': 1e2, 'max_iter': 2},
-                    'arpls': {'lam': 1e2, 'max_iter': 2}, 'mor': {'half_window': 2}}
+                    'psalsa': {'lam': 1e2, 'max_iter': 2, 'num_eigens': None},     # the only 2-D body that reads _size
+                    'arpls': {'lam': 1e2, 'max_iter': 2}}
 METHODS_2D.update(METHODS_2D_MODEL)
 
 CHECK2 = """
@@ -680,6 +681,8 @@ def model2d_cases(ctx):
     kinds = {'noxz': (False, False), 'xonly': (True, False), 'zonly': (False, True), 'xz': (True, True)}
     for kind, (ix, iz) in kinds.items():
         for name in METHODS_2D_MODEL:
+            if name == 'arpls' and ctx.tier == 'quick':
+                continue
             for nt in (2, 3):
                 ser = serial_reference(kind, name, nt, two_d=True)
                 try:
@@ -707,6 +710,11 @@ def model2d_cases(ctx):
                     scheds = list(interleavings(ctx.n(4, 6), ctx.n(4, 6))) if name == 'rolling_ball' else []
                     scheds += [[0] * k + [1] * (steps + 5) for k in range(0, steps + 1)]
                     scheds += [[ctx.rng.randrange(2) for _ in range(2 * steps)] for _ in range(ctx.n(3, 20))]
+                    if kind != 'xz' and name in ('psalsa', 'rolling_ball'):
+                        # two pre-emptions: thread 0 runs a accesses, thread 1 is parked after b accesses (inside
+                        # its prologue / the _shape setter), thread 0 continues through its body, then thread 1
+                        pa = max([i for i, e in enumerate([e for e in ser['events'][0] if e[0] in 'RW']) if e[0] == 'W'], default=2) + 1
+                        scheds += [[0] * a + [1] * b + [0] * (steps + 5) for a in range(1, pa + 1) for b in range(1, pa + 2)]
                 else:
                     scheds = [[ctx.rng.randrange(3) for _ in range(3 * steps)] for _ in range(ctx.n(4, 30))]
                 for sched in scheds:
@@ -834,6 +842,8 @@ def spline2d_cases(ctx):
     for kind in ('xz', 'noxz', 'xz+s5', 'xz+s4', 'xz+l5'):
         for name in ('pspline_iasls', 'pspline_asls'):
             for nt in (2, 3):
+                if ctx.tier == 'quick' and (kind == 'xz+s5' or (nt == 3 and name == 'pspline_asls')):
+                    continue
                 ser = serial_reference(kind, name, nt, two_d=True)
                 if ser['unmodelled']:
                     ctx.broke('correspondence:unmodelled-shared-write-2d', f'{name} on {kind}: {sorted(set(ser["unmodelled"]))[:6]}')
@@ -930,6 +940,140 @@ def spline2d_cases(ctx):
 
 
 
+# ------------------------------------------------------------------------------------------------
+# every READ of a lazily initialised attribute in a method body must be executed by a replayed first call
+
+SCAN_SKIP_FUNCS = {'__init__', '_size', '_shape', 'inner', '_register', '_override_x', 'banded_solver', 'pentapy_solver'}
+# read sites that no first call on an object created without x/z can reach (reviewed; function-level)
+SCAN_ALLOW = {
+    ('_algorithm_setup.py', '_get_function', 'x'): 'only for optimizers delegating to a method that the object does not have (never for Baseline/Baseline2D)',
+    ('two_d/_algorithm_setup.py', '_get_function', 'x'): 'same', ('two_d/_algorithm_setup.py', '_get_function', 'z'): 'same',
+    ('two_d/_algorithm_setup.py', '_return_results', '_shape'): 'only for 3-D inputs (ensure_2d reshaping)',
+    ('two_d/_algorithm_setup.py', '_setup_classification', '_shape'): 'no 2-D classification method exists',
+    ('two_d/optimizers.py', 'individual_axes', 'x'): 'axis-restricted variants', ('two_d/optimizers.py', 'individual_axes', 'z'): 'axis-restricted variants',
+    ('optimizers.py', 'optimize_extended_range', '_size'): 'only with a sort order, i.e. x given at construction',
+    ('classification.py', 'rubberband', '_size'): 'error messages and the array form of `segments`',
+    ('smooth.py', 'peak_filling', '_size'): 'error messages and the array form of `sections`',
+    ('smooth.py', 'snip', '_size'): 'only when a half window exceeds (N - 1) // 2 (warning branch)',
+    ('polynomial.py', 'loess', '_size'): 'conserve_memory=False / use_threshold branches',
+    ('misc.py', 'interp_pts', 'x'): 'needs x_data or data=None',
+}
+VARIANTS_1D = [('dietrich', {'poly_order': 2}), ('cwt_br', {'poly_order': 2, 'min_length': 2}), ('swima', {}), ('peak_filling', {'half_window': 3}),
+               ('loess', {'fraction': 0.3, 'conserve_memory': False}), ('loess', {'fraction': 0.3, 'use_threshold': True, 'max_iter': 3})]
+VARIANTS_2D = []
+
+
+def static_lazy_reads(repo):
+    import ast
+    import os
+    base = os.path.join(repo, 'pybaselines')
+    sites = {}
+    for sub in ('', 'two_d'):
+        d = os.path.join(base, sub)
+        for fn in sorted(os.listdir(d)):
+            if not fn.endswith('.py'):
+                continue
+            path = os.path.join(d, fn)
+            tree = ast.parse(open(path).read())
+
+            def visit(node, fname):
+                for ch in ast.iter_child_nodes(node):
+                    if isinstance(ch, (ast.FunctionDef, ast.AsyncFunctionDef)):
+                        if ch.name not in SCAN_SKIP_FUNCS:
+                            visit(ch, ch.name)
+                    else:
+                        if (fname and isinstance(ch, ast.Attribute) and isinstance(ch.ctx, ast.Load)
+                                and isinstance(ch.value, ast.Name) and ch.value.id == 'self' and ch.attr in T.LAZY_ATTRS):
+                            sites[(os.path.realpath(path), ch.lineno, ch.attr)] = ((sub + '/' if sub else '') + fn, fname)
+                        visit(ch, fname)
+            visit(tree, None)
+    return sites
+
+
+def sweep_calls():
+    """(two_d, method, kwargs): the whole catalogue plus the parameter variants that change which lazily
+    initialised attributes a body reads (return_coef=True, num_eigens=None, defaults instead of explicit windows)."""
+    import inspect
+    from pybaselines import Baseline, Baseline2D
+    from .methods import KW_1D, KW_2D
+    calls = []
+    for two_d, kws, cls, var in ((False, KW_1D, Baseline, VARIANTS_1D), (True, KW_2D, Baseline2D, VARIANTS_2D)):
+        for m, k in kws.items():
+            if k is None or m == 'collab_pls':
+                continue
+            calls.append((two_d, m, dict(k)))
+            params = inspect.signature(getattr(cls, m)).parameters
+            if 'return_coef' in params:
+                calls.append((two_d, m, dict(k, return_coef=True)))
+            if 'num_eigens' in params:
+                calls.append((two_d, m, dict(k, num_eigens=None)))
+        calls += [(two_d, m, k) for m, k in var]
+    return calls
+
+
+def first_call_sweep(ctx):
+    import os
+    sites = static_lazy_reads(os.environ.get('VERIF_REPO', '/repo'))
+    from pybaselines import Baseline, Baseline2D
+    mk = {'nox': lambda: Baseline(), 'noxz': lambda: Baseline2D(), 'xonly': lambda: make_obj2('xonly'), 'zonly': lambda: make_obj2('zonly')}
+    nrun = 0
+    for two_d, m, kw in sweep_calls():
+        ys = [ydata2(i) if two_d else ydata(i, 60) for i in range(2)]
+        kinds = ['noxz'] if two_d else ['nox']
+        ser0 = None
+        for kind in (kinds + (['xonly', 'zonly'] if two_d else [])):
+            f = mk[kind]()
+            res, evs = [], []
+            for i in range(2):
+                r, ev, _ = T.run_solo(call_job(f, m, kw, ys[i]), [f])
+                res.append(r)
+                evs.append([e for e in ev if e[0] in 'RW'])
+            if res[0][0] != 'ok':
+                ctx.note(f'sweep: {m}{kw} raises serially ({res[0][1][0]}), skipped')
+                break
+            reads_size = any(e[2] == 'size' for e in evs[1])       # second call: body reads only
+            if kind not in kinds and not reads_size:
+                continue
+            first = evs[0]
+            pa = max([i for i, e in enumerate(first) if e[0] == 'W' and e[1].startswith('fit')
+                      and e[2] in ('x', 'z', 'size', 'shape')], default=2) + 1
+            full = (two_d and reads_size) or (ctx.tier == 'thorough' and not two_d)
+            thor2 = ctx.tier == 'thorough' and two_d and not full
+            bs = list(range(0, pa + 2)) if full else (list(range(1, pa + 2, 2)) if thor2 else ([3, 5] if two_d else [1, 3]))
+            for a in (range(0, pa + 1) if (full or thor2) else sorted({1, 2, pa - 4, pa - 3, pa - 1, pa} & set(range(1, pa + 1)))):
+                for b in bs:
+                    f = mk[kind]()
+                    try:
+                        con = T.run_concurrent([f], [call_job(f, m, kw, ys[i]) for i in range(2)], [0] * a + [1] * b + [0] * 4000)
+                    except T.SchedulerBroken as e:
+                        ctx.broke('scheduler', f'sweep {m}: {e}')
+                        return
+                    nrun += 1
+                    outs = [outcome_code(con['results'][i], res[i]) for i in range(2)]
+                    ctx.case(('sweep', two_d, m, tuple(sorted(map(str, kw.items()))), kind, a, b), nontrivial=a > 0 and b > 0,
+                             kind=f'sweep:{"2d" if two_d else "1d"}:{kind}')
+                    if any(outs):
+                        case = {'kind': kind, 'method': m, 'kwargs': {k_: (v if isinstance(v, (int, float, str, bool, type(None), dict)) else repr(v)) for k_, v in kw.items()},
+                                'threads': 2, 'schedule': con['executed'], 'two_d': two_d, 'sweep': True}
+                        key = finding_key(kind, m, two_d) or f'race:{m}'
+                        ctx.fail(key, ('2-D ' if two_d else '') + describe(kind, f'{m}{kw}', outs, con), case)
+    ob = 'scan:every-read-of-a-lazily-initialised-attribute-is-executed-by-a-replayed-first-call'
+    ctx.obligations.append(ob)
+    unc = []
+    for (path, line, attr), (rel, fn) in sorted(sites.items()):
+        if (path, line, attr) not in T.COVER and (os.path.realpath(path), line, attr) not in T.COVER and (rel, fn, attr) not in SCAN_ALLOW:
+            unc.append(f'{rel}:{line} {fn} self.{attr}')
+    ctx.extra['lazy_read_scan'] = {'read_sites': len(sites), 'executed_by_replayed_first_calls': len(sites) - len(unc)
+                                   - sum(1 for (p_, l_, a_), (r_, f_) in sites.items() if (p_, l_, a_) not in T.COVER and (r_, f_, a_) in SCAN_ALLOW),
+                                   'allow_listed': {f'{k[0]}:{k[1]}.{k[2]}': v for k, v in SCAN_ALLOW.items()},
+                                   'uncovered': unc, 'sweep_runs': nrun}
+    if unc:
+        ctx.broke(ob, f'read sites of lazily initialised attributes not executed by any replayed first call: {unc[:8]}')
+    else:
+        ctx.discharged.append(ob)
+
+
+
 def prefix_fact(ctx):
     """The abstraction `slice (V r) p = V (min r p)`: the first p+1 columns of polyvander(x, r) ARE
     polyvander(x, p), bit for bit (sampled contract of numpy.polynomial.polynomial.polyvander)."""
@@ -950,7 +1094,7 @@ def run(ctx):
     ctx.rule = ('case = (object state: x given / duplicated x / no x / polynomial cache warm at a lower, equal or higher order, '
                 'with or without a computed pinv / spline cache warm with the same or another key) x (method) x (2 or 3 threads) x '
                 '(schedule: all interleavings of the first accesses, pre-emption of thread 0 after k accesses for every k, seeded '
-                'random interleavings); distinct = distinct executed schedule per (state, method); non-trivial = at least two context switches')
+                'random interleavings; first-call sweep over the whole method catalogue + parameter variants with two pre-emptions: thread 0 runs a accesses, thread 1 is parked after b accesses, thread 0 continues); distinct = distinct executed schedule per (state, method); non-trivial = at least two context switches')
     ctx.trusted += [
         'ATOMICITY GRANULARITY assumed by the model: one attribute load or store of the fitter / _PolyHelper object is atomic '
         '(true under the GIL; per-object-locked dict stores in free-threaded CPython); races inside NumPy/SciPy/numba C code, the memory '
@@ -972,6 +1116,7 @@ def run(ctx):
     bad2 = refuted_cases(ctx)
     bad3 = model2d_cases(ctx)
     bad4 = spline2d_cases(ctx)
+    first_call_sweep(ctx)
     t3 = time.time()
     budget = 1 if (ok and not ctx.broken and ctx.tier == 'quick') else 4
     oracle(ctx, budget)
@@ -991,6 +1136,15 @@ def replay(rep):
         return 1
     two_d = bool(case.get('two_d'))
     nt = int(case['threads'])
+    if case.get('sweep'):
+        kw = case.get('kwargs') or {}
+        tag = f"__sweep__{case['method']}"
+        (METHODS_2D if two_d else MODEL_METHODS)[tag] = (case['method'], kw) if not two_d else kw
+        if two_d:
+            METHODS_2D[case['method']] = kw
+            case = dict(case)
+        else:
+            case = dict(case, method=tag)
     ser = serial_reference(case['kind'], case['method'], nt, two_d=two_d)
     con = concurrent_run(case['kind'], case['method'], nt, case['schedule'], two_d=two_d)
     outs = [outcome_code(con['results'][i], ser['results'][i]) for i in range(nt)]
